@@ -57,7 +57,16 @@ def case_pencil(ctx, variant):
             field = fem.FieldContainer([fem.Field(region, dim=3)])
         for f in field.fields:
             f.values = ctx.const_array(f.values)
-        items.append(fem.SolidBody(fem.LinearElastic(E=E, nu=0.25), field, density=rho))
+        if variant in ("multiplier_first", "three_items"):
+            # an item WITH a multiplier followed by items WITHOUT one (and with another one): each item is scaled by its own only
+            k = ctx.var("mult", 0.5, 2)
+            items.append(fem.SolidBody(fem.LinearElastic(E=2 * E, nu=0.125), field, density=rho / 2, multiplier=k))
+            items.append(fem.SolidBody(fem.LinearElastic(E=E, nu=0.25), field, density=rho))
+            if variant == "three_items":
+                items.append(fem.SolidBody(fem.LinearElastic(E=E / 2, nu=0.0), field, density=rho, multiplier=ctx.var("mult2", 0.5, 2)))
+                items.append(fem.SolidBody(fem.LinearElastic(E=E / 4, nu=0.25), field, density=rho))
+        else:
+            items.append(fem.SolidBody(fem.LinearElastic(E=E, nu=0.25), field, density=rho))
         if variant == "two_items":
             k = ctx.var("mult", 0.5, 2)
             items.append(fem.SolidBody(fem.LinearElastic(E=2 * E, nu=0.125), field, density=rho / 2, multiplier=k))
@@ -160,7 +169,7 @@ def case_rigid_invariance(ctx):
 
 
 def cases(tier):
-    out = [("pencil", case_pencil, {"variant": v}) for v in ("single", "two_items", "mixed", "x0")]
+    out = [("pencil", case_pencil, {"variant": v}) for v in ("single", "two_items", "multiplier_first", "three_items", "mixed", "x0")]
     out.append(("rigid_modes", case_rigid_modes, {"dim": 2}))
     out.append(("rigid_modes", case_rigid_modes, {"dim": 3}))
     if tier == "thorough":
